@@ -1,5 +1,6 @@
 """Registry of regenerated Lean modules: (path under lean/AvoVerif, gen-lean name)."""
 TEXTFLAGS = ("Gen/TextFlags", "TextFlags")
 TEXTFLAGH = ("Oracle/TextFlagH", "TextFlagH")
+REGS = ("Gen/Regs", "Regs")
 
-ALL_MODULES = [TEXTFLAGS, TEXTFLAGH]
+ALL_MODULES = [TEXTFLAGS, TEXTFLAGH, REGS]
